@@ -1,6 +1,7 @@
 package simrt
 
 import (
+	"context"
 	"fmt"
 	"io"
 	"reflect"
@@ -377,3 +378,26 @@ func PprofWriteHeap(w io.Writer) error {
 	_, err := w.Write([]byte("simulated heap profile\n"))
 	return err
 }
+
+// ---- github.com/cloudwego/gopkg/concurrency/gopool ----
+//
+// gopool.Go(f) runs f on a pooled goroutine and RECOVERS a panic of f (it logs it and goes on).  The
+// pool's own goroutines are outside the simulator, so the call becomes a task of its own with the same
+// contract: the panic of f ends f, is logged, and is not propagated.
+
+func GopoolGo(f func()) {
+	Go("gopool", func() {
+		defer func() {
+			if r := recover(); r != nil {
+				if _, ok := r.(abortPanic); ok {
+					panic(r)
+				}
+				Hit("gopool.panic-recovered")
+				Log("gopool.recovered", fmt.Sprint(r))
+			}
+		}()
+		f()
+	})
+}
+
+func GopoolCtxGo(ctx context.Context, f func()) { GopoolGo(f) }
